@@ -296,6 +296,12 @@ def token_matrix(ctx, base_world, traces):
         w.userinfo(H.ISS, flows[0].state, {"sub": "diana", "name": "Diana"})
         w.userinfo(H.ISS, flows[0].state, {"sub": "mallory"})
         w.userinfo(H.ISS2, flows[0].state, {"sub": "diana"})
+        if name in ("genuine", "no-idt"):
+            # user info that carries protocol-looking claims lands in the same record: a later authorization
+            # response for that state must then fail the issuer comparison, never be accepted for another issuer
+            w.userinfo(H.ISS, flows[0].state, {"sub": "diana", "iss": H.ISS2, "nonce": "x"})
+            deliver_authz(w, flows, H.ISS, 0, None, 0, None, None, None)
+            deliver_authz(w, flows, H.ISS2, 0, None, 0, None, None, None)
         finish(ctx, w, flows, "token:" + name, traces)
 
 
